@@ -157,6 +157,17 @@ func TestRegressS7IterateThroughPrefixedView(t *testing.T) { regress(t, sigS7, r
 func TestRegressS8LimitedScanOverStagedDelete(t *testing.T) { regress(t, sigS8, reproS8) }
 func TestRegressS9ReverseRangeEndBound(t *testing.T)        { regress(t, sigS9, reproS9) }
 
+// S10 is repaired in /repo (fix 80cd5f2, listed as C16-F4 "fixed"): a restore through one view must be seen by every view of the staged
+// store. A fixed entry suppresses nothing - if the defect returns it is a violation of C12 as well ("reads through ANY view equal the
+// database with the staged writes applied"), not a reason to narrow the domain again (the probe above still steers the generator, so
+// that the search continues behind it). Added after seeded change C12-q, which re-introduced exactly this defect and passed.
+func TestRegressS10StaleHandleAfterRestore(t *testing.T) {
+	if staleHandleAfterRestore() {
+		t.Fatalf("regression [diffdb.RestoreSnapshot|handle-derived-before-the-restore|keeps-the-discarded-overlay]: after root.Snapshot; child.Set(a,NEW); root.RestoreSnapshot the child view still reads NEW (or the root does after a restore through the child)")
+	}
+	evid.R.Case("regress|S10", true, nil, "regress")
+}
+
 // TestObserve records behaviour that is outside the asserted domain (never fails): limit 0, handles that outlive a
 // RestoreSnapshot (S10), restoring through a child view.
 func TestObserve(t *testing.T) {
